@@ -6,8 +6,14 @@
 import OpmVerif.Gen.DenseAd
 import Mathlib.Tactic.FinCases
 import Mathlib.Data.Fintype.Basic
+import Mathlib.Tactic.Ring
+import Mathlib.Tactic.FieldSimp
+import Mathlib.Algebra.Field.Basic
 
 set_option linter.unusedSectionVars false
+set_option linter.unusedTactic false
+set_option linter.unreachableTactic false
+set_option linter.unusedSimpArgs false
 
 namespace OpmVerif.DenseAd.GenProofs
 open OpmVerif.DenseAd.Gen
@@ -505,6 +511,65 @@ theorem U12_varBase_eq_loop (c : α) : U12.varBase c = L.varBase (n := 12) c := 
 theorem U12_ops_eq_loop : (U12.ops : ADOps α 12) = L.ops := by
   unfold U12.ops L.ops
   congr 1 <;> (repeat (apply funext; intro)) <;> rename_i i <;> fin_cases i <;> rfl
+
+/-! ### the same over a field, robust against algebraically neutral rewrites of a header:
+    slot by slot `rfl`, else `ring` after unfolding -/
+section field
+variable {K : Type} [Field K]
+macro "slot_eq" : tactic => `(tactic| first | rfl | (simp [L.add, L.sub, L.mul, L.div, L.copyDerivatives, L.adds, L.subs, L.muls, L.divs, L.assign, L.neg, L.clearDerivatives, L.sadd, L.ssub, L.smul, L.sdiv, L.const, L.varBase] <;> ring1) | (field_simp [L.add, L.sub, L.mul, L.div, L.copyDerivatives, L.adds, L.subs, L.muls, L.divs, L.assign, L.neg, L.clearDerivatives, L.sadd, L.ssub, L.smul, L.sdiv, L.const, L.varBase] <;> ring1))
+theorem U1_ops_eq_loop_field : (U1.ops : ADOps K 1) = L.ops := by
+  unfold U1.ops L.ops
+  congr 1 <;> (repeat (apply funext; intro)) <;> rename_i i <;> fin_cases i <;>
+    first | rfl | (simp [U1.add, U1.sub, U1.mul, U1.div, U1.copyDerivatives, U1.adds, U1.subs, U1.muls, U1.divs, U1.assign, U1.neg, U1.clearDerivatives, U1.sadd, U1.ssub, U1.smul, U1.sdiv, U1.const, U1.varBase, L.add, L.sub, L.mul, L.div, L.copyDerivatives, L.adds, L.subs, L.muls, L.divs, L.assign, L.neg, L.clearDerivatives, L.sadd, L.ssub, L.smul, L.sdiv, L.const, L.varBase] <;> ring1)
+theorem U2_ops_eq_loop_field : (U2.ops : ADOps K 2) = L.ops := by
+  unfold U2.ops L.ops
+  congr 1 <;> (repeat (apply funext; intro)) <;> rename_i i <;> fin_cases i <;>
+    first | rfl | (simp [U2.add, U2.sub, U2.mul, U2.div, U2.copyDerivatives, U2.adds, U2.subs, U2.muls, U2.divs, U2.assign, U2.neg, U2.clearDerivatives, U2.sadd, U2.ssub, U2.smul, U2.sdiv, U2.const, U2.varBase, L.add, L.sub, L.mul, L.div, L.copyDerivatives, L.adds, L.subs, L.muls, L.divs, L.assign, L.neg, L.clearDerivatives, L.sadd, L.ssub, L.smul, L.sdiv, L.const, L.varBase] <;> ring1)
+theorem U3_ops_eq_loop_field : (U3.ops : ADOps K 3) = L.ops := by
+  unfold U3.ops L.ops
+  congr 1 <;> (repeat (apply funext; intro)) <;> rename_i i <;> fin_cases i <;>
+    first | rfl | (simp [U3.add, U3.sub, U3.mul, U3.div, U3.copyDerivatives, U3.adds, U3.subs, U3.muls, U3.divs, U3.assign, U3.neg, U3.clearDerivatives, U3.sadd, U3.ssub, U3.smul, U3.sdiv, U3.const, U3.varBase, L.add, L.sub, L.mul, L.div, L.copyDerivatives, L.adds, L.subs, L.muls, L.divs, L.assign, L.neg, L.clearDerivatives, L.sadd, L.ssub, L.smul, L.sdiv, L.const, L.varBase] <;> ring1)
+theorem U4_ops_eq_loop_field : (U4.ops : ADOps K 4) = L.ops := by
+  unfold U4.ops L.ops
+  congr 1 <;> (repeat (apply funext; intro)) <;> rename_i i <;> fin_cases i <;>
+    first | rfl | (simp [U4.add, U4.sub, U4.mul, U4.div, U4.copyDerivatives, U4.adds, U4.subs, U4.muls, U4.divs, U4.assign, U4.neg, U4.clearDerivatives, U4.sadd, U4.ssub, U4.smul, U4.sdiv, U4.const, U4.varBase, L.add, L.sub, L.mul, L.div, L.copyDerivatives, L.adds, L.subs, L.muls, L.divs, L.assign, L.neg, L.clearDerivatives, L.sadd, L.ssub, L.smul, L.sdiv, L.const, L.varBase] <;> ring1)
+theorem U5_ops_eq_loop_field : (U5.ops : ADOps K 5) = L.ops := by
+  unfold U5.ops L.ops
+  congr 1 <;> (repeat (apply funext; intro)) <;> rename_i i <;> fin_cases i <;>
+    first | rfl | (simp [U5.add, U5.sub, U5.mul, U5.div, U5.copyDerivatives, U5.adds, U5.subs, U5.muls, U5.divs, U5.assign, U5.neg, U5.clearDerivatives, U5.sadd, U5.ssub, U5.smul, U5.sdiv, U5.const, U5.varBase, L.add, L.sub, L.mul, L.div, L.copyDerivatives, L.adds, L.subs, L.muls, L.divs, L.assign, L.neg, L.clearDerivatives, L.sadd, L.ssub, L.smul, L.sdiv, L.const, L.varBase] <;> ring1)
+theorem U6_ops_eq_loop_field : (U6.ops : ADOps K 6) = L.ops := by
+  unfold U6.ops L.ops
+  congr 1 <;> (repeat (apply funext; intro)) <;> rename_i i <;> fin_cases i <;>
+    first | rfl | (simp [U6.add, U6.sub, U6.mul, U6.div, U6.copyDerivatives, U6.adds, U6.subs, U6.muls, U6.divs, U6.assign, U6.neg, U6.clearDerivatives, U6.sadd, U6.ssub, U6.smul, U6.sdiv, U6.const, U6.varBase, L.add, L.sub, L.mul, L.div, L.copyDerivatives, L.adds, L.subs, L.muls, L.divs, L.assign, L.neg, L.clearDerivatives, L.sadd, L.ssub, L.smul, L.sdiv, L.const, L.varBase] <;> ring1)
+theorem U7_ops_eq_loop_field : (U7.ops : ADOps K 7) = L.ops := by
+  unfold U7.ops L.ops
+  congr 1 <;> (repeat (apply funext; intro)) <;> rename_i i <;> fin_cases i <;>
+    first | rfl | (simp [U7.add, U7.sub, U7.mul, U7.div, U7.copyDerivatives, U7.adds, U7.subs, U7.muls, U7.divs, U7.assign, U7.neg, U7.clearDerivatives, U7.sadd, U7.ssub, U7.smul, U7.sdiv, U7.const, U7.varBase, L.add, L.sub, L.mul, L.div, L.copyDerivatives, L.adds, L.subs, L.muls, L.divs, L.assign, L.neg, L.clearDerivatives, L.sadd, L.ssub, L.smul, L.sdiv, L.const, L.varBase] <;> ring1)
+theorem U8_ops_eq_loop_field : (U8.ops : ADOps K 8) = L.ops := by
+  unfold U8.ops L.ops
+  congr 1 <;> (repeat (apply funext; intro)) <;> rename_i i <;> fin_cases i <;>
+    first | rfl | (simp [U8.add, U8.sub, U8.mul, U8.div, U8.copyDerivatives, U8.adds, U8.subs, U8.muls, U8.divs, U8.assign, U8.neg, U8.clearDerivatives, U8.sadd, U8.ssub, U8.smul, U8.sdiv, U8.const, U8.varBase, L.add, L.sub, L.mul, L.div, L.copyDerivatives, L.adds, L.subs, L.muls, L.divs, L.assign, L.neg, L.clearDerivatives, L.sadd, L.ssub, L.smul, L.sdiv, L.const, L.varBase] <;> ring1)
+theorem U9_ops_eq_loop_field : (U9.ops : ADOps K 9) = L.ops := by
+  unfold U9.ops L.ops
+  congr 1 <;> (repeat (apply funext; intro)) <;> rename_i i <;> fin_cases i <;>
+    first | rfl | (simp [U9.add, U9.sub, U9.mul, U9.div, U9.copyDerivatives, U9.adds, U9.subs, U9.muls, U9.divs, U9.assign, U9.neg, U9.clearDerivatives, U9.sadd, U9.ssub, U9.smul, U9.sdiv, U9.const, U9.varBase, L.add, L.sub, L.mul, L.div, L.copyDerivatives, L.adds, L.subs, L.muls, L.divs, L.assign, L.neg, L.clearDerivatives, L.sadd, L.ssub, L.smul, L.sdiv, L.const, L.varBase] <;> ring1)
+theorem U10_ops_eq_loop_field : (U10.ops : ADOps K 10) = L.ops := by
+  unfold U10.ops L.ops
+  congr 1 <;> (repeat (apply funext; intro)) <;> rename_i i <;> fin_cases i <;>
+    first | rfl | (simp [U10.add, U10.sub, U10.mul, U10.div, U10.copyDerivatives, U10.adds, U10.subs, U10.muls, U10.divs, U10.assign, U10.neg, U10.clearDerivatives, U10.sadd, U10.ssub, U10.smul, U10.sdiv, U10.const, U10.varBase, L.add, L.sub, L.mul, L.div, L.copyDerivatives, L.adds, L.subs, L.muls, L.divs, L.assign, L.neg, L.clearDerivatives, L.sadd, L.ssub, L.smul, L.sdiv, L.const, L.varBase] <;> ring1)
+theorem U11_ops_eq_loop_field : (U11.ops : ADOps K 11) = L.ops := by
+  unfold U11.ops L.ops
+  congr 1 <;> (repeat (apply funext; intro)) <;> rename_i i <;> fin_cases i <;>
+    first | rfl | (simp [U11.add, U11.sub, U11.mul, U11.div, U11.copyDerivatives, U11.adds, U11.subs, U11.muls, U11.divs, U11.assign, U11.neg, U11.clearDerivatives, U11.sadd, U11.ssub, U11.smul, U11.sdiv, U11.const, U11.varBase, L.add, L.sub, L.mul, L.div, L.copyDerivatives, L.adds, L.subs, L.muls, L.divs, L.assign, L.neg, L.clearDerivatives, L.sadd, L.ssub, L.smul, L.sdiv, L.const, L.varBase] <;> ring1)
+theorem U12_ops_eq_loop_field : (U12.ops : ADOps K 12) = L.ops := by
+  unfold U12.ops L.ops
+  congr 1 <;> (repeat (apply funext; intro)) <;> rename_i i <;> fin_cases i <;>
+    first | rfl | (simp [U12.add, U12.sub, U12.mul, U12.div, U12.copyDerivatives, U12.adds, U12.subs, U12.muls, U12.divs, U12.assign, U12.neg, U12.clearDerivatives, U12.sadd, U12.ssub, U12.smul, U12.sdiv, U12.const, U12.varBase, L.add, L.sub, L.mul, L.div, L.copyDerivatives, L.adds, L.subs, L.muls, L.divs, L.assign, L.neg, L.clearDerivatives, L.sadd, L.ssub, L.smul, L.sdiv, L.const, L.varBase] <;> ring1)
+theorem D_ops_eq_loop_field {n : Nat} : (D.ops : ADOps K n) = L.ops := by
+  unfold D.ops L.ops
+  congr 1 <;> (repeat (apply funext; intro)) <;> rename_i i <;>
+    first | rfl | (by_cases h : i.val = 0 <;> simp [D.add, D.sub, D.mul, D.div, D.copyDerivatives, D.adds, D.subs, D.muls, D.divs, D.assign, D.neg, D.clearDerivatives, D.sadd, D.ssub, D.smul, D.sdiv, D.const, D.varBase, L.add, L.sub, L.mul, L.div, L.copyDerivatives, L.adds, L.subs, L.muls, L.divs, L.assign, L.neg, L.clearDerivatives, L.sadd, L.ssub, L.smul, L.sdiv, L.const, L.varBase, h] <;> ring1)
+end field
 
 /-! ### DynamicEvaluation.hpp: the same expressions as the generic loop form, for every n -/
 theorem D_add_eq_loop {n : Nat} (a b : Fin (n + 1) → α) : D.add (n := n) a b = L.add a b := rfl
